@@ -140,6 +140,57 @@ func H_C08_positioning_step() {
 	vReach("end")
 }
 
+// H_C08_line_moves_from_advanced_position: after text has been shown the text matrix has moved away from the line
+// matrix; Td, TD, T*, ' and " still start the next line relative to the LINE matrix, whatever their displacement
+// (including zero).
+//
+//symgo:harness prop=C08 kernel=K1b-step-after-advance real=1
+//symgo:desc state constructed directly: CTM, line matrix and leading set by "cm BT Tf Tm TL" with symbolic real operands, then the text matrix overwritten with an arbitrary symbolic matrix (as left behind by any amount of shown text); one operator from {Td, TD, T*, ', "} (enumerated) with symbolic real operands (zero included); then Tj: the fragment origin is (0,0) x T(tx,ty) x Tlm x CTM of the reference interpreter. Floats as reals
+func H_C08_line_moves_from_advanced_position() {
+	c, t0, adv := vAnyMat(), vAnyMat(), vAnyMat()
+	lead := vAnyFloat()
+	e := NewExtractor()
+	for _, op := range []contentstream.Operation{vOp("cm", vMatOps(c)...), vOp("BT"), vOp("Tf", core.Name("F1"), core.Real(12)), vOp("Tm", vMatOps(t0)...), vOp("TL", core.Real(lead))} {
+		vAssert("prefix-ok", e.processOperation(op) == nil)
+	}
+	for i := range adv {
+		e.gs.Text.TextMatrix[i] = adv[i]
+	}
+	ref := vRefState{ctm: c, tm: adv, tlm: t0, leading: lead}
+	a, b := vAnyFloat(), vAnyFloat()
+	var op contentstream.Operation
+	shows := false
+	switch vAnyIntIn(0, 4) {
+	case 0:
+		op = vOp("Td", core.Real(a), core.Real(b))
+		ref.td(a, b)
+	case 1:
+		op = vOp("TD", core.Real(a), core.Real(b))
+		ref.td(a, b)
+	case 2:
+		op = vOp("T*")
+		ref.td(0, -ref.leading)
+	case 3:
+		op = vOp("'", core.String("B"))
+		ref.td(0, -ref.leading)
+		shows = true
+	default:
+		op = vOp("\"", core.Real(a), core.Real(b), core.String("B"))
+		ref.td(0, -ref.leading)
+		shows = true
+	}
+	vAssert("operator-ok", e.processOperation(op) == nil)
+	if !shows {
+		vAssert("show-ok", e.processOperation(vOp("Tj", core.String("A"))) == nil)
+	}
+	vAssert("fragment-emitted", len(e.fragments) >= 1)
+	first := e.fragments[0]
+	full := vMul(ref.tm, ref.ctm)
+	vAssert("origin-x", first.X == full[4])
+	vAssert("origin-y", first.Y == full[5])
+	vReach("end")
+}
+
 // H_C08_font_size: the reported font size reflects font size, text matrix and CTM scaling.
 //
 //symgo:harness prop=C08 kernel=K3-font-size real=1
